@@ -66,7 +66,10 @@ func c11BuildPlan(variant int) (*c11Plan, error) {
 	}
 	// block 1: Qi spend + Quai transfer (+ a contract creation and a conversion from the menu)
 	menu := scenMenu()
-	for _, i := range []int{2, 3} { // C (k1 transfer) and D (k1 create, nonce n+1)
+	// variants 0..17: C (k1 transfer) and D (k1 create, nonce n+1); 18..35: K and L (contract with
+	// storage deployed at an address paid earlier in the block); 36..53: E and H (two conversions)
+	menuSets := [][]int{{2, 3}, {8, 9}, {4, 7}}
+	for _, i := range menuSets[(variant/18)%len(menuSets)] {
 		if tx := menu[i].Make(s); tx != nil {
 			s.n.AddTxs(tx)
 		}
@@ -140,7 +143,7 @@ var c11BOps = [][][]int{
 	{{5}},          // T: shorter side branch (forced head switch to a lighter chain tip)
 }
 
-const c11Variants = 18
+const c11Variants = 54 // 2 prefixes x 3 main-branch contents x 3 side branches x 3 mempool sets of the first block
 
 func c11Blocks(steps []c11Step) []*types.WorkObject {
 	var out []*types.WorkObject
